@@ -27,10 +27,10 @@ PROPS = {
     "C04": {"families": ["validate"],
             "nontrivial_rule": "a ValidateToken / ValidateTokenOrDemote call returned",
             "mc": ["MC_Faults"]},
-    "C05": {"families": ["regress", "core", "prio", "faults"],
+    "C05": {"families": ["regress", "core", "prio", "faults", "health"],
             "nontrivial_rule": "two or more successful acquisitions (terms) in the trace",
             "mc": ["MC_Core2", "MC_Prio"]},
-    "C06": {"families": ["vacancy", "faults"],
+    "C06": {"families": ["vacancy", "faults", "stop"],
             "nontrivial_rule": "the record becomes vacant (delete, expiry) while another instance runs",
             "mc": ["MC_Faults"]},
     "C07": {"families": ["regress", "core", "stop"],
